@@ -47,8 +47,8 @@ def r06_2(run):
         if fi is None or not is_none_value(val):
             continue
         by_fn.setdefault(fi.qualname, (fi, []))[1].append((st, norm(t.value)))
-    if len(by_fn) < 4:
-        raise AnalysisError(f"expected >= 4 functions nulling Tensor._grad, found {len(by_fn)}")
+    if len(by_fn) < 3:
+        raise AnalysisError(f"expected >= 3 functions nulling Tensor._grad, found {len(by_fn)}")
     for q, (fi, lst) in sorted(by_fn.items()):
         cfg = build_cfg(run, fi, switch_assumptions(fi, track=True, memguard=True))
         for st, recv in lst:
@@ -140,7 +140,7 @@ def _layout_of_var(cfg, value, at, var, depth) -> bool:
 
 def check(run):
     run.rule("R06.1", "clear_graph: on the view path a read of self.grad dominates `self._creator = None`", floor=2)
-    run.rule("R06.2", "every function nulling _grad nulls _view_grad on the same paths", floor=4)
+    run.rule("R06.2", "every function nulling _grad nulls _view_grad on the same paths", floor=3)
     run.rule("R06.3", "= R12.3 (engine-owned, distinct gradient storage) -- decided under C12", floor=0)
     run.rule("R06.4", "the first contribution stored into var._grad has var.data's memory layout; Tensor.grad replays the view op, "
              "untracked, and validates its cache by base identity", floor=4)
